@@ -269,6 +269,8 @@ def main(tier, seed):
                                              'state, while the original\'s steps all are (C18_continue)',
                        differing_components=ifam.bits_names(mask))
             v.violation(rep, tag='model%d' % i)
+    import icheck
+    n_viol += min(2, icheck.report_unattributed(PROP, v, masks, sub, model_charts))
     for fn, out in fails:
         n_viol += 1
         v.violation(dict(property=PROP, broken='correspondence lemma file did not evaluate', file=fn, log=out), tag='coq', no_input=True)
